@@ -17,6 +17,11 @@ pub struct FGen {
     pub upper_user_fn: bool,      // LET-bound lambdas with upper-case names (finding F62)
 }
 
+/// names for LET variables and LAMBDA parameters: plain ones, identifiers that START like an R1C1
+/// reference (the stored form is re-read in R1C1 mode) and their A1 twins (the display form is read
+/// in A1 mode), a boolean followed by more characters
+pub const VAR_NAMES: &[&str] = &["x", "a", "val", "R2C2_total", "R1C1.rate", "RC_x", "R1C1x", "r3c4z", "R12C3_", "A1_x", "XFD1x", "a1b", "TRUE1", "FALSE_x", "C1R1", "R_", "C.x"];
+
 pub const FUNS: &[(&str, usize, usize)] = &[
     ("SUM", 1, 4), ("IF", 2, 3), ("AND", 1, 3), ("OR", 1, 3), ("NOT", 1, 1), ("MAX", 1, 3), ("MIN", 1, 3), ("ABS", 1, 1),
     ("ROUND", 2, 2), ("LEN", 1, 1), ("CONCATENATE", 1, 3), ("AVERAGE", 1, 3), ("COUNT", 1, 3), ("ISNUMBER", 1, 1),
@@ -108,9 +113,11 @@ impl FGen {
             25 => format!("({})", self.expr(r, d)),
             26 => if self.spills { format!("@{}", self.range(r)) } else { self.atom(r) },
             27 => if self.spills { format!("{}#", self.cell(r)) } else { self.atom(r) },
-            28 => format!("LAMBDA(x,{})({})", self.lambda_body(r, d), self.expr(r, d)),
+            28 => { let v = *r.pick(VAR_NAMES); format!("LAMBDA({v},{})({})", self.lambda_body(r, d).replace('x', "\u{1}").replace('\u{1}', v), self.expr(r, d)) }
+            37 => { let (v, w) = (*r.pick(VAR_NAMES), *r.pick(&["y", "R1C2_b", "B2_b", "k"])); format!("LAMBDA({v},{w},{v}+{w}*2)({},{})", self.expr(r, d), self.atom(r)) }
+            38 => { let v = *r.pick(VAR_NAMES); format!("LET({v},{},{v}*2+{})", self.expr(r, d), self.atom(r)) }
             29 => format!("LAMBDA(x,[y],x+IF(ISOMITTED(y),1,y))({})", self.expr(r, d)),
-            30 => format!("LET(a,{},a+{})", self.expr(r, d), self.atom(r)),
+            30 => { let v = *r.pick(VAR_NAMES); format!("LET({v},{},{v}+{})", self.expr(r, d), self.atom(r)) }
             31 => if self.upper_user_fn && r.chance(1, 3) { format!("LET(Fn,LAMBDA(x,x+1),Fn({}))", self.atom(r)) } else { format!("LET(f,LAMBDA(x,x*2),f({}))", self.atom(r)) },
             32 => format!("SUM({})", self.range(r)),
             33 => format!("INDEX({},1,1):{}", self.range(r), self.cell(r)),
@@ -121,7 +128,8 @@ impl FGen {
         }
     }
     fn lambda_body(&self, r: &mut Rng, depth: u32) -> String {
-        match r.below(4) { 0 => "x+1".into(), 1 => format!("x*{}", self.operand(r, depth)), 2 => "IF(x>1,x,-x)".into(), _ => format!("x&{}", self.atom(r)) }
+        // 'x' occurs in a body only as the parameter (the operand of case 1 is appended after the substitution in `expr`)
+        match r.below(3) { 0 => "x+1".into(), 1 => "IF(x>1,x,-x)".into(), _ => "x&1".into() }
     }
     pub fn formula(&self, r: &mut Rng) -> String {
         let depth = 1 + r.below(4) as u32;
@@ -137,5 +145,7 @@ pub const FIXED_POOL: &[&str] = &[
     "=IF(A1>1,\"y\",\"n\")", "=SUM(,1)", "=SUM(1,)", "=TRUE()", "=true", "=LAMBDA(x,x+1)(2)", "=1+", "=)", "=R[1]C[1]", "=R1C1", "=RC",
     "=r1c1+1", "=R2C2:R3C3", "=SUM(R1C1)", "=A1:B2 B1:C3", "=1 2", "=2^-1", "=--1", "=-1%", "=1%%", "=-A1^2", "=(A1:A2):A3",
     "=1/3", "=1E+300*10", "=\"a\"\"b\"", "=Name1", "=name1+1", "=Ghost!A1", "=SUM(Ghost!A1:A2)", "='Sheet 2'!A1", "=#REF!+1",
+    "=R2C2_total*2", "=LET(R1C1.rate,2,R1C1.rate*3)", "=LAMBDA(RC_x,RC_x+1)(2)", "=LET(R1C1x,1,R1C1x+1)", "=LAMBDA(r3c4z,R12C3_,r3c4z*R12C3_)(2,3)",
+    "=A1_x+1", "=LET(XFD1x,1,XFD1x+1)", "=TRUE1", "=LAMBDA(a1b,a1b&\"z\")(1)", "=rc_local+R2C2_total", "=LET(R1C,2,R1C+1)", "=LET(RC,2,RC+1)", "=LET(R1C,2,R1C*2)",
     "=(A1):B2", "=A1:(A1:B2)", "=(Sheet1!A1):B2", "=(Sheet1!A1):INDEX(B1:B3,2)", "=SUM((A1):INDEX(B1:B3,2))",
 ];
